@@ -432,6 +432,13 @@ def rule_single(ctx):
     plan_ok = not rule_singleplan(ctx).violations
     if plan_ok:
         pk = ["diag", "sum", "perm"]
+    if plan_ok and ctx.__dict__.get("_c11_exec_evaluated"):
+        # planner *and* executor were evaluated end to end on abstract arrays for the whole family: the pattern
+        # reading below (which spelling of a stage it recognises) adds nothing and must not fail on another spelling
+        for disc in ("positions", "executor-order", "planner-order"):
+            r.ok(ctx.key(pf if disc != "executor-order" else ef, "C11-SINGLE", disc), pf.loc,
+                 "decided by [C11-SINGLEPLAN]: planner and executor evaluated together on abstract arrays")
+        return r
     # executor: unpack and usage kinds
     unp = [n for n in walk_local(ef.node) if isinstance(n, ast.Assign) and isinstance(n.targets[0], ast.Tuple)
            and isinstance(n.value, ast.Call) and dotted(n.value.func) == "_parse_einsum_single"]
@@ -1221,6 +1228,58 @@ def rule_prims(ctx):
     return r
 
 
+class _Lay:
+    """abstract array: the string of index letters of its axes (sizes from a table); supports what the one-operand
+    executor does to an array — advanced-index diagonals, sums over axes, transposition"""
+
+    def __init__(self, lay, size):
+        self.lay, self.size = lay, size
+
+    @property
+    def shape(self):
+        return tuple(self.size[c] for c in self.lay)
+
+    def __getitem__(self, sel):
+        from ..engine.minieval import SLICE_ALL
+        sel = tuple(sel) if isinstance(sel, (tuple, list)) else (sel,)
+        if len(sel) != len(self.lay):
+            raise _PlanErr(f"a selector has {len(sel)} entries for the {len(self.lay)} axes of `{self.lay}`")
+        adv = [i for i, s_ in enumerate(sel) if s_ != SLICE_ALL]
+        if len(adv) < 2 or len({self.lay[i] for i in adv}) != 1:
+            raise _PlanErr(f"a selector indexes axes {adv} of `{self.lay}`, which are not the occurrences of one repeated index")
+        L = self.lay[adv[0]]
+        if any(tuple(sel[i]) != tuple(range(self.size[L])) for i in adv) or len(adv) != self.lay.count(L):
+            raise _PlanErr(f"a selector does not take the full diagonal over `{L}` of `{self.lay}`")
+        rest = "".join(c for i, c in enumerate(self.lay) if i not in adv)
+        if adv == list(range(adv[0], adv[0] + len(adv))):
+            return _Lay(self.lay[:adv[0]] + L + self.lay[adv[0] + len(adv):], self.size)
+        return _Lay(L + rest, self.size)
+
+    def sum(self, axes):
+        ax = [axes] if isinstance(axes, int) else list(axes)
+        ax = [a_ + len(self.lay) if a_ < 0 else a_ for a_ in ax]
+        if len(set(ax)) != len(ax) or any(not (0 <= a_ < len(self.lay)) for a_ in ax):
+            raise _PlanErr(f"sum over {tuple(ax)} of the {len(self.lay)} axes of `{self.lay}`")
+        return _Lay("".join(c for i, c in enumerate(self.lay) if i not in ax), self.size)
+
+    def transpose(self, perm):
+        pm = list(perm)
+        if sorted(pm) != list(range(len(self.lay))):
+            raise _PlanErr(f"{tuple(pm)} is not a permutation of the axes of `{self.lay}`")
+        return _Lay("".join(self.lay[i] for i in pm), self.size)
+
+
+def _abstract_do(name, *args, **kw):
+    if name == "einsum":
+        raise ImportError("no einsum in the abstract backend")  # forces the library's own fallback, as a backend without einsum does
+    x = args[0]
+    if name == "sum":
+        return x.sum(args[1] if len(args) > 1 else kw.get("axis"))
+    if name == "transpose":
+        return x.transpose(args[1] if len(args) > 1 else kw.get("axes"))
+    raise _PlanErr(f"the one-operand executor calls the primitive `{name}`")
+
+
 def rule_singleplan(ctx):
     """(sensitivity map, round 8: the suite never reaches this planner) The single-operand planner is a pure function
     of (equation, shape).  Its source is evaluated — by the engine's mini-evaluator, nothing is imported — on every
@@ -1239,6 +1298,8 @@ def rule_singleplan(ctx):
     C.require(f is not None and "_sanitize_equation" in helpers, "_parse_einsum_single / _sanitize_equation not found")
     size = {"a": 2, "b": 3, "c": 4}
     k = ctx.key(f, "C11-SINGLEPLAN")
+    ef = ctx.p.func(C.CONTRACT, "_einsum_single")
+    exec_funcs = dict(helpers, _parse_einsum_single=f.node) if ef is not None else None
     n_eq = 0
     bad = None
     try:
@@ -1266,6 +1327,21 @@ def rule_singleplan(ctx):
                             why = _apply_single_plan(plan, "".join(term), "".join(out), size, SLICE_ALL)
                             if why and bad is None:
                                 bad = (eq, why)
+                            # the executor itself, on an abstract array (a backend without einsum: the fallback path)
+                            if exec_funcs is not None and not why:
+                                try:
+                                    res = Mini(exec_funcs, budget=30000, externals={"do": _abstract_do, "shape": lambda x_: x_.shape}).call(
+                                        ef.node, [eq, _Lay("".join(term), size)])
+                                    if not isinstance(res, _Lay) or res.lay != "".join(out):
+                                        bad = bad or (eq, f"the executor turns the layout `{''.join(term)}` into `{getattr(res, 'lay', res)}`")
+                                except _PlanErr as e:
+                                    bad = bad or (eq, f"the executor asks for {e}")
+                                except Raised as e:
+                                    bad = bad or (eq, f"the executor raises ({e.text})")
+                                except NoEval:
+                                    exec_funcs = None  # executor outside the fragment: the structural stage guards below decide it
+                                except Exception as e:
+                                    bad = bad or (eq, f"the executor raises ({type(e).__name__}: {e})")
         # implicit output: the sorted indices that appear exactly once
         for term in ("ab", "ba", "aab", "abb", "cab", "abcb", "bca", "aa", "a", ""):
             n_eq += 1
@@ -1285,6 +1361,7 @@ def rule_singleplan(ctx):
                 bad = (term + " (implicit output)", why)
     except NoEval as e:
         raise AnalysisError(f"_parse_einsum_single: not evaluable by the mini-evaluator ({e})")
+    ctx.__dict__["_c11_exec_evaluated"] = exec_funcs is not None
     # the executor applies each stage exactly when the plan has one
     ef = ctx.p.func(C.CONTRACT, "_einsum_single")
     pol = []
@@ -1292,8 +1369,9 @@ def rule_singleplan(ctx):
         if isinstance(st, ast.If) and isinstance(st.test, ast.Compare) and len(st.test.ops) == 1 and \
                 isinstance(st.test.comparators[0], ast.Constant) and st.test.comparators[0].value is None:
             pol.append((st, isinstance(st.test.ops[0], ast.IsNot)))
-    C.require(len(pol) >= 3, "_einsum_single: the three stage guards not found")
-    wrong = [st for st, ok_ in pol if not ok_]
+    if exec_funcs is None:
+        C.require(len(pol) >= 3, "_einsum_single: the three stage guards not found")
+    wrong = [st for st, ok_ in pol if not ok_] if exec_funcs is None else []
     if wrong and bad is None:
         bad = ("any equation", f"the executor runs a stage under `{C.unparse(wrong[0].test)}` — when the plan has none")
     if bad:
@@ -1544,4 +1622,88 @@ def rule_pairplan(ctx):
     return r
 
 
-RULES = [rule_pairplan, rule_singleplan, rule_prims, rule_diag, rule_dedup, rule_plandep, rule_layout, rule_perm, rule_single, rule_axes, rule_memo, rule_exec, rule_pure]
+def rule_tdotplan(ctx):
+    """(engine E9; seed C11_9) `_parse_tensordot_axes_to_matmul` turns an axes specification into an equation for the
+    pairwise planner (which [C11-PAIRPLAN] decides).  Its source is evaluated — with the planner replaced by a stub that
+    hands the equation back — on every specification over operands of rank 0-3: the integer form n (last n axes of a
+    with the first n of b, *in order*) and explicit pairs of up to two axes in every order, positive and negative;
+    the equation must be tensordot's: one symbol per axis of a, b's i-th listed axis carrying the symbol of a's i-th
+    listed axis, fresh symbols elsewhere, output = a's free axes then b's free axes."""
+    import itertools
+
+    from ..engine.minieval import Mini, NoEval, Raised
+
+    r = RuleResult("C11-TDOTPLAN", "tensordot's equation is the reference's for every axes form (bounded ranks)", 1)
+    f = ctx.p.func(C.CONTRACT, "_parse_tensordot_axes_to_matmul")
+    C.require(f is not None, "_parse_tensordot_axes_to_matmul not found")
+    k = ctx.key(f, "C11-TDOTPLAN")
+    primes = [2, 3, 5, 7, 11, 13]
+    bad = None
+    n = 0
+
+    def run(axes, sa, sb):
+        ext = {"gen_nice_inds": lambda: iter("abcdefghijklmnopqrstuvwxyz"), "_parse_eq_to_batch_matmul": lambda eq, x, y: ("EQ", eq)}
+        return Mini({}, budget=20000, externals=ext).call(f.node, [axes, sa, sb])
+    try:
+        for na in range(0, 4):
+            for nb in range(0, 4):
+                specs = []
+                for n_int in range(0, min(na, nb) + 1):
+                    specs.append((n_int, tuple(range(na - n_int, na)), tuple(range(n_int))))
+                for kk in (1, 2):
+                    for pa in itertools.permutations(range(na), kk):
+                        for pb in itertools.permutations(range(nb), kk):
+                            specs.append(((pa, pb), pa, pb))
+                            specs.append(((tuple(x - na for x in pa), tuple(x - nb for x in pb)), pa, pb))
+                for axes, pa, pb in specs:
+                    sa = tuple(primes[i] for i in range(na))
+                    sb = [None] * nb
+                    for i_, j_ in zip(pa, pb):
+                        sb[j_] = sa[i_]
+                    q = 3
+                    for j_ in range(nb):
+                        if sb[j_] is None:
+                            sb[j_] = primes[q]
+                            q += 1
+                    sb = tuple(sb)
+                    n += 1
+                    try:
+                        res = run(axes, sa, sb)
+                    except Raised as e:
+                        bad = bad or (axes, sa, sb, f"raises ({e.text})")
+                        continue
+                    except NoEval:
+                        raise
+                    except Exception as e:
+                        bad = bad or (axes, sa, sb, f"raises ({type(e).__name__}: {e})")
+                        continue
+                    if not (isinstance(res, tuple) and res and res[0] == "EQ"):
+                        raise AnalysisError("_parse_tensordot_axes_to_matmul: the equation is not handed to _parse_eq_to_batch_matmul")
+                    eq = res[1]
+                    lhs, _, out = eq.partition("->")
+                    ta, _, tb = lhs.partition(",")
+                    why = None
+                    if len(ta) != na or len(set(ta)) != na or len(tb) != nb:
+                        why = f"equation `{eq}` does not give one symbol per axis"
+                    else:
+                        pair = dict(zip(pb, pa))
+                        for j_ in range(nb):
+                            if j_ in pair and tb[j_] != ta[pair[j_]]:
+                                why = f"equation `{eq}` pairs axis {j_} of b with axis {ta.find(tb[j_])} of a, tensordot pairs it with axis {pair[j_]}"
+                            if j_ not in pair and (tb[j_] in ta or tb.count(tb[j_]) != 1):
+                                why = f"equation `{eq}`: the free axis {j_} of b shares a symbol"
+                        want = "".join(c for i_, c in enumerate(ta) if i_ not in pa) + "".join(c for j_, c in enumerate(tb) if j_ not in pb)
+                        if why is None and out != want:
+                            why = f"equation `{eq}` orders the output `{out}`, tensordot's is `{want}`"
+                    if why and bad is None:
+                        bad = (axes, sa, sb, why)
+    except NoEval as e:
+        raise AnalysisError(f"_parse_tensordot_axes_to_matmul: not evaluable by the mini-evaluator ({e})")
+    if bad:
+        r.violation(k, f.loc, f"tensordot with axes={bad[0]!r} on shapes {bad[1]} and {bad[2]}: {bad[3]}")
+    else:
+        r.ok(k, f.loc, f"{n} (axes, shapes) cases: the equation handed to the pairwise planner is tensordot's")
+    return r
+
+
+RULES = [rule_tdotplan, rule_pairplan, rule_singleplan, rule_prims, rule_diag, rule_dedup, rule_plandep, rule_layout, rule_perm, rule_single, rule_axes, rule_memo, rule_exec, rule_pure]
